@@ -627,7 +627,12 @@ class BytesNode(Node):
 
     def _construct(self):
         content = self.children["content"].getvalue()
-        return content
+        # bytes itself, or the subclass of bytes that was dumped (e.g.
+        # numpy.bytes_), built from the content
+        cls = gettype(self.module_name, self.class_name)
+        if cls is bytes:
+            return content
+        return cls(content)
 
     def format(self):
         content = self.children["content"].getvalue()
@@ -646,9 +651,10 @@ class BytearrayNode(BytesNode):
         self.trusted = self._get_trusted(trusted, [bytearray])
 
     def _construct(self):
-        content_bytes = super()._construct()
-        content_bytearray = bytearray(list(content_bytes))
-        return content_bytearray
+        content_bytes = self.children["content"].getvalue()
+        # bytearray itself, or the subclass of bytearray that was dumped
+        cls = gettype(self.module_name, self.class_name)
+        return cls(content_bytes)
 
     def format(self):
         return f"bytearray({super().format()})"
